@@ -139,6 +139,28 @@ func readHeader(f *os.File) (*header, error) {
 		return nil, fmt.Errorf("internal error: need at least one chunk, found %d", numOffsets-1)
 	}
 
+	if numOffsets > (foundFileSize-chunkTableOffset)/8 {
+		// The chunk table must fit in the file. This also keeps the
+		// arithmetic and the allocation below within bounds.
+		return nil, fmt.Errorf("chunk table with %d entries does not fit in a file of size %d",
+			numOffsets, foundFileSize)
+	}
+
+	if h.compression == Zstandard {
+		if h.chunkSize == 0 {
+			return nil, errors.New("invalid chunk size: 0")
+		}
+
+		expectedChunks := h.uncompressedSize / int64(h.chunkSize)
+		if h.uncompressedSize%int64(h.chunkSize) != 0 {
+			expectedChunks++
+		}
+		if h.uncompressedSize <= 0 || numOffsets-1 != expectedChunks {
+			return nil, fmt.Errorf("found %d chunks, but a blob of size %d with chunk size %d needs %d",
+				numOffsets-1, h.uncompressedSize, h.chunkSize, expectedChunks)
+		}
+	}
+
 	metadataSize := numOffsets*8 + 8 + 1 + 4 + 8
 	if int64(frameSize) != metadataSize {
 		return nil, fmt.Errorf("metadata frame size %d, but metadata size %d",
@@ -291,6 +313,12 @@ func GetUncompressedReadCloser(zstd zstdimpl.ZstdImpl, f *os.File, expectedSize 
 		return nil, err
 	}
 
+	if remainder > int64(len(uncompressedFirstChunk)) {
+		_ = f.Close()
+		return nil, fmt.Errorf("chunk %d has %d bytes, cannot start reading at %d",
+			chunkNum, len(uncompressedFirstChunk), remainder)
+	}
+
 	if chunkNum == int64(len(h.chunkOffsets)-2) {
 		// Last chunk in the file.
 		r := bytes.NewReader(uncompressedFirstChunk[remainder:])
@@ -395,6 +423,12 @@ func GetZstdReadCloser(zstd zstdimpl.ZstdImpl, f *os.File, expectedSize int64, o
 	if err != nil {
 		_ = f.Close()
 		return nil, err
+	}
+
+	if remainder > int64(len(uncompressedFirstChunk)) {
+		_ = f.Close()
+		return nil, fmt.Errorf("chunk %d has %d bytes, cannot start reading at %d",
+			chunkNum, len(uncompressedFirstChunk), remainder)
 	}
 
 	chunkToRecompress := uncompressedFirstChunk[remainder:]
